@@ -44,10 +44,10 @@ LEVEL = "model_checking"
 
 POOL_MAX = 4
 BASE = ([("seed", s) for s in (None, 1, 2)] + [("shots", n) for n in (1, 2)] + [("offset", o) for o in (0, 1)]
-        + [("simobj", None), ("simshared", None), ("sv", None), ("stab", None), ("coin", None)])
+        + [("simobj", None), ("simshared", None), ("simseeded", None), ("sv", None), ("stab", None), ("coin", None)])
 EXT = BASE + [("errm", None), ("rt", None)]
 METHOD = {"seed": "with_seed", "shots": "with_shots", "offset": "with_shot_offset", "simobj": "with_simulator",
-          "simshared": "with_simulator",
+          "simshared": "with_simulator", "simseeded": "with_simulator",
           "sv": "statevector_sim", "stab": "stabilizer_sim", "coin": "coinflip_sim", "errm": "with_error_model",
           "rt": "with_runtime", "run": "run"}
 
@@ -107,10 +107,19 @@ class Stub:
         return iter([iter([("eff_seed", -1 if eff is None else eff)]) for _ in range(int(kw.get("n_shots") or 0))])
 
 
+class ResultMismatch(Exception):
+    """run() returned results that no run of this configuration produces."""
+
+
 def _mk_component(kind):
     if kind == "simobj":
         from selene_sim.backends.bundled_simulators import Quest
         return Quest()
+    if kind == "simseeded":
+        # same class as `simobj`, different settings: a simulator with its OWN seed (which wins over the
+        # configuration's seed)
+        from selene_sim.backends.bundled_simulators import Quest
+        return Quest(random_seed=99)
     if kind == "errm":
         try:
             from selene_depolarizing_error_model_plugin import DepolarizingPlugin
@@ -173,7 +182,7 @@ class World:
             new = x.with_shots(arg)
         elif kind == "offset":
             new = x.with_shot_offset(arg)
-        elif kind == "simobj":
+        elif kind in ("simobj", "simseeded"):
             new = x.with_simulator(_mk_component(kind))
         elif kind == "simshared":
             # ONE user-owned simulator object handed to several configurations
@@ -205,7 +214,18 @@ class World:
         self.stub.last = None
         res = x.run()
         if self.stub.last is None:
-            raise RuntimeError("harness: run() did not reach run_shots")
+            # run() answered without running the simulator (a cache?).  The stub cannot attest such a run, but the
+            # returned results carry the effective seed of the run that produced them: it must be this
+            # configuration's (own seed of the simulator, else the configured seed)
+            got = sorted({v for shot in res.results for k, v in shot.entries if k == "eff_seed"})
+            own = vars(x.simulator).get("random_seed") if x.simulator is not None else None
+            exp = own if own is not None else x.seed
+            if got != [-1 if exp is None else exp]:
+                raise ResultMismatch(f"run() did not run the simulator and returned results produced with effective seed(s) {got}, "
+                                     f"this configuration's effective seed is {exp}")
+            # consistent with the configuration: accepted, but the stub cannot attest what was handed to Selene
+            self.unattested = getattr(self, "unattested", 0) + 1
+            return tuple(x.seed if i == 15 else "unattested-run" for i in range(len(OBS_FIELDS))), res
         return self.stub.last, res
 
     def fields(self, x):
@@ -273,7 +293,7 @@ def compare_step(before, after, ev, violations, stats):
     for idx, (b, a) in enumerate(zip(before, after)):
         (ob, fb), (oa, fa) = b, a
         seeded = ob[15] is not None          # default_seed_argument == x.seed
-        if ob != oa:
+        if ob != oa and "unattested-run" not in (ob[0], oa[0]):
             fs = diff_fields(ob, oa, OBS_FIELDS)
             key = f"{what}-changes-earlier-config:by-{METHOD[kind]}:{'seeded' if seeded else 'unseeded'}"
             violations.append((key, idx, ",".join(fs), "; ".join(f"{f}={ob[OBS_FIELDS.index(f)]!r}" for f in fs),
@@ -379,20 +399,30 @@ def _explore_subtree(args):
         prev = leaf
         stats["leaves"] += 1
         w = World()
-        for ev in leaf[:c]:
-            w.apply(ev)
-        if cache[0] == leaf[:c]:
-            snap = cache[1]          # same deterministic prefix: observed while replaying the previous leaf
-        else:
-            snap = w.snapshot()
-            stats["observations"] += len(snap)
+        try:
+            for ev in leaf[:c]:
+                w.apply(ev)
+            if cache[0] == leaf[:c]:
+                snap = cache[1]          # same deterministic prefix: observed while replaying the previous leaf
+            else:
+                snap = w.snapshot()
+                stats["observations"] += len(snap)
+        except ResultMismatch as e:
+            _note(found, "run-returns-results-of-another-configuration", leaf[:c], 0, "results", "", str(e))
+            prev = None
+            cache = (None, None)
+            continue
         for j in range(c, depth):
             ev = leaf[j]
             if j == depth - 1:
                 cache = (leaf[:j], snap)
             own_before = [vars(o).get("random_seed", None) for o in w.objs]
-            w.apply(ev)
-            after = w.snapshot()
+            try:
+                w.apply(ev)
+                after = w.snapshot()
+            except ResultMismatch as e:
+                _note(found, "run-returns-results-of-another-configuration", leaf[:j + 1], 0, "results", "", str(e))
+                break
             stats["observations"] += len(after)
             stats["transitions"] += 1
             states.add(w.state_key(after))
@@ -424,8 +454,11 @@ def _probe_impure(history, idx):
     for ev in history:
         w.apply(ev)
     x = w.pool[idx]
-    a = (w.observe(x)[0], w.fields(x))
-    b = (w.observe(x)[0], w.fields(x))
+    try:
+        a = (w.observe(x)[0], w.fields(x))
+        b = (w.observe(x)[0], w.fields(x))
+    except ResultMismatch:
+        return False
     return a != b
 
 
@@ -466,11 +499,14 @@ def _upper_edges(args):
     alph_name, path = args
     stats = {"seeded_reproducibility_breaks": 0}
     w = World()
-    for ev in path[:-1]:
-        w.apply(ev)
-    snap = w.snapshot()
-    w.apply(path[-1])
-    after = w.snapshot()
+    try:
+        for ev in path[:-1]:
+            w.apply(ev)
+        snap = w.snapshot()
+        w.apply(path[-1])
+        after = w.snapshot()
+    except ResultMismatch as e:
+        return path, [("run-returns-results-of-another-configuration", 0, "results", "", str(e))], ("mismatch", repr(path))
     vio = []
     compare_step(snap, after, path[-1], vio, stats)
     return path, vio, w.state_key(after)
@@ -688,10 +724,15 @@ def run(ctx):
         cov.update(conformance(ctx, agg["found"]))
     else:
         cov["conformance"] = "thorough tier only"
+    from checks import c28b
+    cov.update(c28b.run_part(ctx))
     return cov
 
 
 def replay(ctx, item):
+    if item.get("part") == "builder":
+        from checks import c28b
+        return c28b.replay(ctx, item)
     mode = item.get("mode")
     if mode == "minimal":
         h = tuple(tuple(e) for e in item["history"])
